@@ -836,6 +836,23 @@ pub fn route_path_to_segments(path: &str) -> Vec<&str> {
     ret
 }
 
+/// Verification hooks (compiled only with `--cfg dropshot_verif`).
+#[cfg(dropshot_verif)]
+#[doc(hidden)]
+pub mod verif_hooks {
+    pub use super::PathSegment;
+    pub use super::VariableSet;
+    pub use super::VariableValue;
+
+    pub fn input_path_to_segments(path: &str) -> Result<Vec<String>, String> {
+        super::input_path_to_segments(&super::InputPath::from(path))
+    }
+
+    pub fn route_path_to_segments(path: &str) -> Vec<&str> {
+        super::route_path_to_segments(path)
+    }
+}
+
 #[cfg(test)]
 mod test {
     use super::super::error::HttpError;
